@@ -243,14 +243,15 @@ def check(case, ctx):
                     try:
                         if twice("to_g2o", lambda: obj.to_g2o()):
                             return
-                    except NotImplementedError:
-                        ctx.event("to_g2o:NotImplementedError")
+                    except (NotImplementedError, ValueError):
+                        ctx.event("to_g2o:refused")
                 if tmpdir is None:
                     tmpdir = tempfile.mkdtemp(prefix="vf_c15_")
                 try:
                     g.to_g2o(os.path.join(tmpdir, "g.g2o"))
-                except NotImplementedError:
-                    ctx.event("to_g2o:NotImplementedError")
+                except (NotImplementedError, ValueError):
+                    # content the format cannot express is refused (documented); the state must still be unchanged
+                    ctx.event("to_g2o:refused")
             elif op == "pose.ops":
                 p = v.pose
                 q = g._vertices[o["a"] % nv].pose
